@@ -86,6 +86,7 @@ func c17Sem(t *tr.Writer, id int, c c17Case) {
 	t.Reset(id, tr.Rec{"kind": "sem", "max": c.Max, "timeout": c.Timeout, "input": c})
 	next := 0
 	dones := map[int]chan struct{}{}
+	cancels := map[int]context.CancelFunc{}
 	var wg sync.WaitGroup
 	var lastStart time.Time
 	startCall := func() int {
@@ -94,6 +95,8 @@ func c17Sem(t *tr.Writer, id int, c c17Case) {
 		lastStart = time.Now()
 		d := make(chan struct{})
 		dones[cid] = d
+		cctx, cancel := context.WithCancel(context.WithValue(context.Background(), callKey, cid))
+		cancels[cid] = cancel
 		t.Emit(tr.Rec{"ev": "acqB", "c": cid, "t": us()})
 		wg.Add(1)
 		go func() {
@@ -106,11 +109,13 @@ func c17Sem(t *tr.Writer, id int, c c17Case) {
 						res = "panic"
 					}
 				}()
-				_, err := client.InvokeContext(context.WithValue(context.Background(), callKey, cid), "f", nil)
+				_, err := client.InvokeContext(cctx, "f", nil)
 				switch {
 				case err == nil:
 				case err == core.ErrTimeout:
 					res = "timeout"
+				case err == context.Canceled:
+					res = "canceled"
 				case err.Error() == "scripted":
 					res = "err"
 				case err.Error() == "scripted-panic":
@@ -181,6 +186,18 @@ func c17Sem(t *tr.Writer, id int, c c17Case) {
 				}
 			}
 			finish(op.J, op.O)
+		case "cancel":
+			// the caller of the latest request gives up (its own context is cancelled): if the request still
+			// waits for a permit it leaves the queue; it must not go on without one
+			if next > 0 {
+				t.Emit(tr.Rec{"ev": "cancel", "c": next})
+				cancels[next]()
+				select {
+				case <-entered:
+				case <-dones[next]:
+				case <-time.After(3 * time.Millisecond):
+				}
+			}
 		case "wait":
 			if c.Timeout > 0 {
 				time.Sleep(time.Duration(c.Timeout)*time.Microsecond + 8*time.Millisecond)
@@ -405,6 +422,29 @@ func runC17(a Args) tr.Summary {
 	for n := 1; n <= exLen; n++ {
 		gen(nil, n)
 	}
+	// the same with a (long) wait time-out and the caller giving up in the alphabet
+	alphaC := []c17Op{{Op: "start"}, {Op: "cancel"}, {Op: "finish", J: 0, O: "ok"}, {Op: "finish", J: 1, O: "panic"}, {Op: "quiesce"}}
+	var genC func(p []c17Op, n int)
+	genC = func(p []c17Op, n int) {
+		if len(p) == n {
+			hasCancel := false
+			for _, o := range p {
+				hasCancel = hasCancel || o.Op == "cancel"
+			}
+			if hasCancel {
+				for _, max := range []int{1, 2} {
+					cases = append(cases, c17Case{Kind: "sem", Max: max, Timeout: 400000, Ops: append([]c17Op(nil), p...)})
+				}
+			}
+			return
+		}
+		for _, o := range alphaC {
+			genC(append(p, o), n)
+		}
+	}
+	for n := 2; n <= exLen; n++ {
+		genC(nil, n)
+	}
 	for i := 0; i < nSemRandom; i++ {
 		m := 6 + rng.Intn(10)
 		var ops []c17Op
@@ -412,6 +452,9 @@ func runC17(a Args) tr.Summary {
 			switch x := rng.Intn(10); {
 			case x < 4:
 				ops = append(ops, c17Op{Op: "start"})
+				if rng.Intn(4) == 0 {
+					ops = append(ops, c17Op{Op: "cancel"})
+				}
 			case x < 7:
 				ops = append(ops, c17Op{Op: "finish", J: rng.Intn(3), O: []string{"ok", "err", "panic"}[rng.Intn(3)]})
 			case x < 9:
